@@ -58,7 +58,9 @@ func (r *KeyRing) copyKey(other *asn1.Key) (*asn1.Key, error) {
 	if other.ValidSince.After(other.ValidUntil) {
 		return nil, api.ErrInvalidCryptoperiod
 	}
-	if len(other.Data) == 0 {
+	// A destroyed key has no data anymore, it is copied as it is: a key ring
+	// that holds destroyed keys must stay importable.
+	if len(other.Data) == 0 && api.KeyState(other.State) != api.KeyDestroyed {
 		return nil, api.ErrNoKeyData
 	}
 	key := *other
